@@ -137,6 +137,48 @@ def own_chunk_cases(out, n):
                                       {'kind': 'own', 'digest': digest.hex(), 'which': which})
 
 
+def faulty_delete_case(arg):
+    """"when delete COMPLETES, every chunk referenced only by the deleted snapshots is gone": one backend deletion of such a chunk
+    fails for good — then delete must not report completion (it may raise), or the chunk must be gone after all."""
+    seed, idx = arg
+    from .. import common
+    from ..impl import runner as R
+    from ..impl.world import World
+    common.use_rebuilt_chunker()
+    r = rng_for(seed, 'C08-fault', idx)
+    res = {'idx': idx, 'violations': [], 'summary': {}}
+    with R.Scratch('c08f_%d' % idx) as sc:
+        enc = r.random() < 0.7
+        w = World(sc, enc=enc, chunking=r.choice([(8, 32), (16, 64)]), concurrent=r.choice([1, 2, 5]), async_backend=r.random() < 0.3)
+        shared = r.randbytes(r.choice([40, 90, 200]))
+        a = w.snapshot(0, {'shared': shared, 'only_a': r.randbytes(r.choice([60, 150, 300]))})
+        b = w.snapshot(0, {'shared': shared})
+        ref_a = set(w.snap_by_sid[a['sid']]['body']['chunks'])
+        ref_b = set(w.snap_by_sid[b['sid']]['body']['chunks'])
+        only_a = sorted(ref_a - ref_b)
+        if not only_a:
+            res['summary'] = {'fault': None}
+            return res
+        victim_cid = r.choice(only_a)
+        victim = next(loc for loc, (f, c) in w.chunk_names.items() if c == victim_cid and loc in w.backend.objects)
+        state = {'n': 0}
+
+        def fault(op, name):
+            if op == 'del' and name == victim:
+                state['n'] += 1
+                return RuntimeError('injected: backend refuses to delete %s' % name[:16])
+            return None
+        w.backend.fault = fault
+        out = w.delete(0, [a['sid']])
+        w.backend.fault = None
+        left = sorted(c for loc, (f, c) in w.chunk_names.items() if loc in w.backend.objects and c in only_a)
+        res['summary'] = {'fault': 'chunk-delete', 'enc': enc, 'only_a': len(only_a), 'delete_error': out['error'], 'left': len(left), 'fault_hits': state['n']}
+        if out['error'] is None and left:
+            res['violations'].append(('gc:delete-reported-complete-but-chunks-left',
+                                      f'delete returned normally although the backend refused to remove a chunk referenced only by the deleted snapshot; {len(left)} such chunk(s) remain'))
+    return res
+
+
 def run(out, drv, info):
     quick = out.tier == 'quick'
     n_hist, n_ops = (120, 12) if quick else (1000, 30)
@@ -149,6 +191,15 @@ def run(out, drv, info):
     X.run(out, drv, 'C08', n_hist, n_ops, ORACLES, X.c08_nontrivial, EXTRA)
     format_cases(out, drv, 400 if quick else 6000)
     own_chunk_cases(out, 40 if quick else 400)
+    import multiprocessing as mp
+    import os
+    with mp.get_context('fork').Pool(min(16, os.cpu_count() or 4)) as pool:
+        fres = pool.map(faulty_delete_case, [(out.seed, i) for i in range(24 if quick else 300)], chunksize=2)
+    for res in fres:
+        out.case(res['summary'], res['summary'].get('fault') is not None)
+        out.count('faulty-delete:' + str(res['summary'].get('delete_error') if res['summary'].get('fault') else 'no-exclusive-chunk'))
+        for sig, what in res['violations']:
+            out.violation(sig, what, {'kind': 'faulty-delete', 'seed': out.seed, 'idx': res['idx']})
 
 
 def replay(path, drv):
